@@ -482,6 +482,11 @@ class Path:
                         r2 = z3.unsat
                     elif rc == "sat":
                         r2, md2 = z3.sat, {"__raw__": mraw[:4000]}
+                    else:
+                        # the counter-model came from (or needs) the value table of pow2: re-establish it the same way
+                        rr_ = _refute_with_pow2_table(list(s.assertions()), min(self.ex.timeout_ms, 10000))
+                        if rr_ is not None:
+                            r2, md2 = z3.sat, rr_[1]
                 if r2 == z3.unsat:
                     res, backend, model = "valid", backend + "+mbqi", None
                 elif r2 == z3.sat:
@@ -859,6 +864,17 @@ def _z3cli_finish(h, timeout_ms: int):
             pass
 
 
+def _has_var(e) -> bool:
+    stack = [e]
+    while stack:
+        t = stack.pop()
+        if z3.is_var(t):
+            return True
+        if z3.is_app(t):
+            stack.extend(t.children())
+    return False
+
+
 def _small_scope(smt2: str, asserts) -> str:
     """the query plus 0 <= c <= 2 for every free Int constant (sound for `sat` answers only)"""
     names = set()
@@ -878,6 +894,22 @@ def _small_scope(smt2: str, asserts) -> str:
                 names.add(t.sexpr())
             stack.extend(t.children())
     extra = "".join(f"(assert (and (<= 0 {n}) (<= {n} 2)))\n" for n in sorted(names))
+    # ... and the TRUE values of the uninterpreted pow2 on exponents in [-2, 2] (exponents confined to that range):
+    # again only a strengthening with facts that hold for 2^k
+    try:
+        seen_e = set()
+        for t in _pow2_apps(asserts):
+            e = t.arg(0)
+            if z3.is_var(e) or not z3.is_int(e) or _has_var(e):
+                continue
+            es = e.sexpr().replace("\n", " ")
+            if es in seen_e:
+                continue
+            seen_e.add(es)
+            extra += (f"(assert (and (<= (- 2) {es}) (<= {es} 2) (= (pow2 {es}) (ite (= {es} 2) 4.0 (ite (= {es} 1) 2.0 "
+                      f"(ite (= {es} 0) 1.0 (ite (= {es} (- 1)) 0.5 0.25)))))))\n")
+    except Exception:  # noqa  (the helper run is optional)
+        pass
     k = smt2.rfind("(check-sat)")
     return smt2[:k] + extra + smt2[k:] if k >= 0 else smt2 + extra
 
